@@ -164,6 +164,82 @@ V_C03(a, o) ==
     ELSE IF r.kcap = "none" \/ r.el = <<>> THEN VTriv("no-keys") ELSE VOk
 
 (***************************************************************************)
+(* C14  exception-based filtering drops exactly the failing examples:      *)
+(* value iteration (V_C01 against the reference, which removes exactly the *)
+(* examples whose evaluation raises a caught class and lets any other      *)
+(* failure surface at its position with its class) and key iteration       *)
+(* alike.  Non-trivial only for programs that contain a failing stage or a *)
+(* catch form.                                                             *)
+(***************************************************************************)
+RECURSIVE HasFault(_)
+HasFault(a) ==
+  CASE a.op \in {"list", "dict"} -> FALSE
+    [] a.op \in {"fmap", "catch"} -> TRUE
+    [] a.op = "prefetch" -> a.cfe # "none" \/ HasFault(a.in)
+    [] a.op \in {"concat", "intersperse", "zip", "keyzip"} -> HasFault(a.in) \/ HasFault(a.in2)
+    [] OTHER -> HasFault(a.in)
+
+V_C14(a, o, m) ==
+  IF ~HasFault(a) THEN VTriv("no-failing-stage-or-catch")
+  ELSE LET v == V_C01(a, o, m) IN
+       IF v[1] # "ok" THEN v
+       ELSE LET exp == Deliver(Ref([op |-> "items", in |-> a])) IN
+            IF ~Refusal(o.itk) /\ ~SameIter(o.itk, exp) THEN VViol("items-iteration-differs-from-reference")
+            ELSE VOk
+
+(***************************************************************************)
+(* C18  sorting and grouping reorder without losing or inventing examples. *)
+(* Stated on the observation of the sorted / grouped dataset and the       *)
+(* CONTENT of its input (the reference of the input program; C01 ties that *)
+(* to the code): the result is a permutation of the input, its sort keys   *)
+(* are monotone (reverse included), keys stay attached to their examples,  *)
+(* without a key function the example keys are the sort keys; a group      *)
+(* holds exactly the examples with its id, in their original order.        *)
+(* The payloads of family "sortgroup" are dicts: the real code raises      *)
+(* TypeError if it ever compares two examples.                             *)
+(***************************************************************************)
+IsPermOf(xs, ys) ==
+  /\ Len(xs) = Len(ys)
+  /\ \A j \in 1..Len(xs) :
+        Cardinality({m \in 1..Len(xs) : xs[m] = xs[j]}) = Cardinality({m \in 1..Len(ys) : ys[m] = xs[j]})
+
+V_C18(a, o) ==
+  IF a.op \notin {"sort", "group"} THEN VTriv("not-a-sort-or-groupby")
+  ELSE LET ri == Ref(a.in) IN
+  IF ri.refuse # "none" \/ ri.tail # "none" \/ ~AllOk(ri.el) THEN VTriv("input-not-plain")
+  ELSE IF o.build # "ok" THEN
+    (IF Ref(a).refuse = "none" /\ ModelObs(a).build = "ok" THEN VViol("supported-sort-refused")
+     ELSE VTriv("refused"))
+  ELSE IF Refusal(o.it1) THEN VTriv("iteration-refused")
+  ELSE
+    LET inV == [j \in 1..Len(ri.el) |-> ri.el[j].v]
+        inP == [j \in 1..Len(ri.el) |-> T(<<S(ri.el[j].k), ri.el[j].v>>)]
+        out == o.it1.items
+        keyed == ri.kcap \in {"keys", "items"} /\ \A j \in 1..Len(ri.el) : ri.el[j].k # ""
+    IN
+    IF a.op = "sort" THEN
+      IF o.it1.exc # "none" THEN VViol("sorted-dataset-raises")
+      ELSE IF ~IsPermOf(out, inV) THEN VViol("not-a-permutation-of-the-input")
+      ELSE IF a.key # "none" /\ \E j \in 1..(Len(out) - 1) :
+                 IF a.rev THEN KeyFn(a.key, out[j]) < KeyFn(a.key, out[j + 1])
+                 ELSE KeyFn(a.key, out[j]) > KeyFn(a.key, out[j + 1])
+        THEN VViol("sort-keys-not-monotone")
+      ELSE IF a.key = "none" /\ (~o.keys.ok \/ \E j \in 1..(Len(o.keys.ks) - 1) :
+                 IF a.rev THEN StrLess(o.keys.ks[j], o.keys.ks[j + 1])
+                 ELSE StrLess(o.keys.ks[j + 1], o.keys.ks[j]))
+        THEN VViol("example-keys-not-in-sort-order")
+      ELSE IF keyed /\ ~Refusal(o.itk) /\ (o.itk.exc # "none" \/ ~IsPermOf(o.itk.items, inP))
+        THEN VViol("keys-not-attached-to-their-examples")
+      ELSE IF Len(out) <= 1 THEN VTriv("at-most-one-example") ELSE VOk
+    ELSE \* group
+      LET want == SelectIdx(inV, LAMBDA x : KeyFn(a.g, x) = a.sel, 1) IN
+      IF o.it1.exc # "none" THEN VViol("group-raises")
+      ELSE IF out # [j \in 1..Len(want) |-> inV[want[j]]] THEN VViol("group-is-not-the-examples-with-its-id-in-order")
+      ELSE IF keyed /\ ~Refusal(o.itk) /\ o.itk.items # [j \in 1..Len(want) |-> inP[want[j]]]
+        THEN VViol("keys-not-attached-to-their-examples")
+      ELSE VOk
+
+(***************************************************************************)
 (* Conformance (drift): the real observation equals the model's, up to the *)
 (* class of library-raised exceptions.                                     *)
 (***************************************************************************)
